@@ -414,6 +414,8 @@ func (s *script) applyEnv(sc *scenario, m *model, ev *event) {
 	}
 }
 
+const recoverDelayNs = 1000000 // 1 ms between the redirect and RetrieveRoutingResult
+
 type frameRun struct {
 	v    *vkern.Verdict
 	st   *kstate
@@ -448,10 +450,46 @@ type explorer struct {
 	violMu  sync.Mutex
 	perKind map[string]int
 
+	samples map[string]*sampleRec
+
 	states, transitions, frames, fastRuns, slowRuns atomic.Int64
 	outcomes                                        [5]atomic.Int64
 	recFrom                                         [2]atomic.Int64
 	firstPkts, stickyPkts, dae0peerRuns, altDrops   atomic.Int64
+}
+
+type sampleRec struct {
+	path []uint16
+	data map[string]any
+}
+
+func lessPath(a, b []uint16) bool {
+	if len(a) != len(b) {
+		return len(a) < len(b)
+	}
+	for i := range a {
+		if a[i] != b[i] {
+			return a[i] < b[i]
+		}
+	}
+	return false
+}
+
+// sample keeps, per class, the smallest sequence of this run that exercised it (deterministic whatever the scheduling).
+func (x *explorer) sample(class string, path []uint16, last int, data map[string]any) {
+	full := append(append([]uint16(nil), path...), uint16(last))
+	x.violMu.Lock()
+	defer x.violMu.Unlock()
+	if x.samples == nil {
+		x.samples = map[string]*sampleRec{}
+	}
+	if cur := x.samples[class]; cur != nil && !lessPath(full, cur.path) {
+		return
+	}
+	data["class"] = class
+	data["scenario"] = x.sc.name
+	data["sequence"] = x.pathString(path, last)
+	x.samples[class] = &sampleRec{path: full, data: data}
 }
 
 func (x *explorer) pathString(path []uint16, last int) string {
@@ -618,6 +656,18 @@ func (x *explorer) expand(e *kenv, n *node) []succ {
 				x.report(xName[want.kind], n.path, t.ei, msg, det)
 				break
 			}
+			if r == t.runs[0] && len(n.path) >= 2 && !want.first {
+				switch want.kind {
+				case xHandover:
+					x.sample("later packet of a tracked flow handed over with its first packet's decision", n.path, t.ei, map[string]any{"verdict": verdictString(r.v), "recovered_by_control_plane": det["recovered"], "statement": want.why})
+				case xPass:
+					if !want.noCreate {
+						x.sample("later packet of a tracked flow let through", n.path, t.ei, map[string]any{"verdict": verdictString(r.v), "statement": want.why})
+					}
+				case xDrop:
+					x.sample("later packet of a tracked flow dropped", n.path, t.ei, map[string]any{"verdict": verdictString(r.v), "statement": want.why})
+				}
+			}
 			if pt != nil {
 				pt.det = det
 				t.peer = append(t.peer, pt)
@@ -771,7 +821,8 @@ func (x *explorer) checkFrame(ev *event, skb *vkern.Skb, fs *frameSpec, ipOff in
 			return fmt.Sprintf("%s redirected to dae0 with destination MAC %x, dae0peer has %x", c.name, v.Frame[:6], macPeer), det, nil
 		}
 		// the control plane recovers the decision: RetrieveRoutingResult's steps on the maps as they are now
-		got, found, err := control.VerifC03Retrieve(fs.src, fs.dst, c.proto, m2.now, r.st.lookup)
+		// (the control plane reads the record when the packet reaches its socket: a moment after the redirect)
+		got, found, err := control.VerifC03Retrieve(fs.src, fs.dst, c.proto, m2.now+recoverDelayNs, r.st.lookup)
 		det["go_lookup_key"] = hex.EncodeToString(control.VerifC03TuplesKey(fs.src, fs.dst, c.proto))
 		if err != nil {
 			return fmt.Sprintf("%s handed over but the control plane cannot decode the record: %v", c.name, err), det, nil
